@@ -424,7 +424,7 @@ func (fg *FunctionGenerator) GenerateCustom(ast parser2.AST, gc funcGen.Generato
 		}
 		l := tc.GetLine()
 		return func(st funcGen.Stack[Value], cs []Value) (Value, error) {
-			tryVal, tryErr := tryFunc(st, cs)
+			tryVal, tryErr := callRecovering(tryFunc, st, cs)
 			if tryErr == nil {
 				return tryVal, nil
 			}
@@ -508,6 +508,19 @@ func (fg *FunctionGenerator) GenerateCustom(ast parser2.AST, gc funcGen.Generato
 		}
 	}
 	return nil, false, nil
+}
+
+// callRecovering calls f and returns a panic raised by f as an error. This way
+// all runtime faults, not only the errors returned regularly, are visible to
+// try/catch.
+func callRecovering(f funcGen.ParserFunc[Value], st funcGen.Stack[Value], cs []Value) (val Value, err error) {
+	defer func() {
+		if rec := recover(); rec != nil {
+			val = nil
+			err = parser2.AnyToError(rec)
+		}
+	}()
+	return f(st, cs)
 }
 
 func simpleOnlyFloatFunc(name string, f func(float64) float64) funcGen.Function[Value] {
@@ -677,7 +690,10 @@ func New() *FunctionGenerator {
 	fg.AddOpImpl("=", true, equal)
 	fg.AddOp("!=", false, func(st funcGen.Stack[Value], a Value, b Value) (Value, error) {
 		eq, err := equal.Calc(st, a, b)
-		return !(eq.(Bool)), err
+		if err != nil {
+			return nil, err
+		}
+		return !(eq.(Bool)), nil
 	})
 	fg.AddOp("~", false, func(st funcGen.Stack[Value], a Value, b Value) (Value, error) {
 		if list, ok := b.(*List); ok {
@@ -962,6 +978,9 @@ func New() *FunctionGenerator {
 
 	f.AddStaticFunction("min", funcGen.Function[Value]{
 		Func: func(st funcGen.Stack[Value], cs []Value) (Value, error) {
+			if st.Size() == 0 {
+				return nil, errors.New("min requires at least one argument")
+			}
 			var m Value
 			for i := 0; i < st.Size(); i++ {
 				v := st.Get(i)
@@ -984,6 +1003,9 @@ func New() *FunctionGenerator {
 	}.SetDescription("a", "b", "Returns the smaller of a and b."))
 	f.AddStaticFunction("max", funcGen.Function[Value]{
 		Func: func(st funcGen.Stack[Value], cs []Value) (Value, error) {
+			if st.Size() == 0 {
+				return nil, errors.New("max requires at least one argument")
+			}
 			var m Value
 			for i := 0; i < st.Size(); i++ {
 				v := st.Get(i)
@@ -1014,6 +1036,9 @@ func randomFunc() func(st funcGen.Stack[Value], cs []Value) (Value, error) {
 		} else if st.Size() == 1 {
 			v := st.Get(0)
 			if n, ok := v.(Int); ok {
+				if n <= 0 {
+					return nil, errors.New("random requires a positive argument")
+				}
 				return Int(rand.Intn(int(n))), nil
 			}
 			return nil, errors.New("random only allowed on int")
